@@ -32,7 +32,7 @@ def model_check(report, module, name, consts, invariants, properties=(), workers
     return res
 
 
-def emit(report, module, name, consts, simulate=None, depth=None, seed=None, timeout=3000, workers=16, extra_invariants=()):
+def emit(report, module, name, consts, simulate=None, depth=None, seed=None, timeout=3000, workers=16, extra_invariants=(), limit=None):
     c = dict(consts)
     c["Record"] = True
     table = {}
@@ -50,7 +50,12 @@ def emit(report, module, name, consts, simulate=None, depth=None, seed=None, tim
         h = json.loads(k)
         if h:
             prefixes.add(prefix_key(h[:-1]))
-    maximal = [json.loads(k) for k in table if k not in prefixes]
+    mkeys = [k for k in table if k not in prefixes]
+    del prefixes
+    if limit is not None and len(mkeys) > limit:
+        import random
+        mkeys = random.Random(seed or 0).sample(mkeys, limit)     # sampled BEFORE parsing: memory stays bounded
+    maximal = [json.loads(k) for k in mkeys]
     print("[emit %s] %d behaviours (%d observations), TLC %.1fs" % (name, len(maximal), len(table), res.wall), file=sys.stderr)
     return maximal, table, c
 
